@@ -238,3 +238,48 @@ func IsNull(v interface{}) bool {
 	}
 	return false
 }
+
+// Same reports deep equality of two JSON trees (a value, not an assertion:
+// comparing symbolic leaves makes the caller's `if` a symbolic decision).
+func Same(a, b interface{}) bool {
+	switch x := a.(type) {
+	case map[string]interface{}:
+		y, ok := b.(map[string]interface{})
+		if !ok || len(x) != len(y) || (x == nil) != (y == nil) {
+			return false
+		}
+		for k, xv := range x {
+			yv, has := y[k]
+			if !has || !Same(xv, yv) {
+				return false
+			}
+		}
+		return true
+	case []interface{}:
+		y, ok := b.([]interface{})
+		if !ok || len(x) != len(y) {
+			return false
+		}
+		for i := range x {
+			if !Same(x[i], y[i]) {
+				return false
+			}
+		}
+		return true
+	case string:
+		y, ok := b.(string)
+		return ok && x == y
+	case int64:
+		y, ok := b.(int64)
+		return ok && x == y
+	case float64:
+		y, ok := b.(float64)
+		return ok && x == y
+	case bool:
+		y, ok := b.(bool)
+		return ok && x == y
+	case nil:
+		return b == nil
+	}
+	return false
+}
